@@ -110,7 +110,7 @@ def specRegistry (ls : List Load) (qs : List Query) : String :=
   let full (h : Header) : String := if h.rev = "" then h.name else h.name ++ "@" ++ h.rev
   let showH (h : Header) : String := encStr (fileOf h) ++ ":" ++ encStr (full h)
   let loads := commaJoin ((outcomes hs).map fun b => if b then "dup" else "ok")
-  let wf := hs.all fun h => h.rev == "" || (parseDate h.rev.toList).isSome
+  let wf := hs.all fun h => h.rev == "" || (Spec.parseDate h.rev.toList).isSome
   let bindings (sub : Bool) : String :=
     let keys := ((hs.filter (·.isSub == sub)).flatMap fun h => [h.name, full h]).eraseDups
     commaJoin <| sortStrs <| keys.map fun k =>
